@@ -57,3 +57,13 @@ package wire
 
 //@ func (*ClientConn).readReliableLoop
 //@   props C06
+
+// ---------------------------------------------------------------- alias generator (C04)
+// Precondition "no wrap": fewer than 2^32-1 aliases are minted per stream (A5).
+//@ func (*AliasGenerator).Next
+//@   props C04
+//@   nopanic
+//@   requires g.currentValue < 4294967295
+//@   modifies g.currentValue
+//@   ensures result == old(g.currentValue) + 1 && g.currentValue == result
+//@   loop 1 invariant g.currentValue == old(g.currentValue)
